@@ -474,7 +474,42 @@ func genFair(seed uint64, tier string) *Scenario {
 }
 
 // C13: MAX_CONCURRENT_STREAMS.
+// genChurn: a storm of short RPCs against a small limit: every completion
+// hands a slot to a waiter while other callers are between their failed
+// admission check and the wait, which is where a wake-up can get lost.
+func genChurn(seed uint64, tier string) *Scenario {
+	r, s := genBase(seed, tier, false)
+	s.Oracles = []string{"mcs", "quota"}
+	s.Sched.YieldThr = core.Pick(r, uint32(700), 2000, 6500, 20000)
+	s.Net = simnet.Cfg{Seed: core.Mix(seed, 21)}
+	s.Client.WriteBuf, s.Client.ReadBuf = 0, 0
+	s.Peer.MCS = int64(core.Pick(r, 1, 2, 2, 3, 4))
+	n := r.Range(4, 16)
+	short := int64(core.Pick(r, 0, 1000, 1000, 50000))
+	long := int64(core.Pick(r, 300000000, 1000000000))
+	gens := core.Pick(r, 1, 1, 2, 3)
+	for i := 0; i < n; i++ {
+		rpc := RPC{ID: uint32(i + 1), StartNs: int64(core.Pick(r, 0, 0, 0, 1000, 2000)), DeadlineNs: 5000000000}
+		if r.Chance(1, 3) {
+			rpc.StartNs = short * int64(r.Range(1, gens)) // arrives at the instant earlier streams finish
+		}
+		rpc.Client = []Op{{Op: "close_send"}, {Op: "recv_all"}}
+		// the streams admitted first all finish at the same instant, the ones
+		// admitted after them stay open: a waiter that missed its wake-up then
+		// waits although a slot is free
+		rpc.Server = [][]SOp{{{Op: "sleep", Ns: short, FirstK: int(s.Peer.MCS) * gens, Ns2: long}, {Op: "trailers"}}}
+		s.RPCs = append(s.RPCs, rpc)
+	}
+	for _, at := range []int64{100000, 1000000, 100000000, 2000000000} {
+		s.Actions = append(s.Actions, act(at, "check"))
+	}
+	return s
+}
+
 func genC13(seed uint64, tier string) *Scenario {
+	if core.NewRand(core.Mix(seed, 81)).Chance(1, 3) {
+		return genChurn(seed, tier)
+	}
 	r, s := genBase(seed, tier, true)
 	s.Oracles = []string{"mcs", "quota"}
 	p := &s.Peer
@@ -531,7 +566,7 @@ func genC13(seed uint64, tier string) *Scenario {
 		a.MCS = int64(core.Pick(r, 0, 0, 1, 1, 2, 3, 8, 100))
 		s.Actions = append(s.Actions, a, act(at+int64(core.Pick(r, 1, 100000, 5000000)), "check"))
 	}
-	for i := 0; i < 3; i++ {
+	for i := 0; i < 12; i++ {
 		s.Actions = append(s.Actions, act(int64(r.LogUniform(1000, int(horizon)+400000000)), "check"))
 	}
 	if r.Chance(1, 6) {
